@@ -74,11 +74,27 @@ for t in ["i8", "i16", "i32", "i64", "u8", "u16", "u32", "u64"]:
     _h.append(H("de_" + t, "C15.K.deserialize.%s" % t, ["de::Deserialize<'de> for SafeLong::deserialize", "SafeLong::new"],
                 "Deserialize on an %s event: Ok => wf and value kept; in-range => accepted (all payloads)" % t))
 
-KANI_UNITS = [dict(
-    name="safe_long", crate="conjure-object", modpath="safe_long::verif_c15",
-    injections=[dict(file=F, module_file="safe_long.kani.rs", attrs=[dict(key="SafeLong::new", text=NEW_ENSURES)])],
-    harnesses=_h,
-)]
+_HERE = os.path.dirname(os.path.abspath(__file__))
+_MODULAR = {"new_contract", "from_str_boundaries"} | {h["name"] for h in _h if h["name"].endswith("_modular")}
+
+def _module(modular):
+    s = open(os.path.join(_HERE, "safe_long.kani.rs")).read()
+    m = open(os.path.join(_HERE, "safe_long.modular.kani.rs")).read() if modular else ""
+    assert "//@@MODULAR@@" in s
+    return s.replace("//@@MODULAR@@", m)
+
+KANI_UNITS = [
+    # direct: the real bodies are inlined; the failing check is the harness's own assertion, so that a
+    # counterexample replays natively
+    dict(name="safe_long", crate="conjure-object", modpath="safe_long::verif_c15",
+         injections=[dict(file=F, module_fn=lambda ws: _module(False))],
+         harnesses=[h for h in _h if h["name"] not in _MODULAR]),
+    # modular: `new` carries its contract as kani::ensures; it is proved with proof_for_contract and the
+    # callers are checked against the contract only (stub_verified)
+    dict(name="safe_long_modular", crate="conjure-object", modpath="safe_long::verif_c15",
+         injections=[dict(file=F, module_fn=lambda ws: _module(True), attrs=[dict(key="SafeLong::new", text=NEW_ENSURES)])],
+         harnesses=[h for h in _h if h["name"] in _MODULAR]),
+]
 
 
 # ------------------------------------------------------------------ syntactic frame scans (not counted as proof)
